@@ -86,6 +86,12 @@ def tokenize_rhs(s):
     return out
 
 
+def bound_for(g):
+    """length bound for the language comparison, by number of distinct terminals"""
+    ts = {sym["t"] for r in g["rules"] for sym in r["rhs"] if sym["k"] == "t"}
+    return 5 if len(ts) <= 8 else (4 if len(ts) <= 14 else 3)
+
+
 def parse_dump(text):
     rules = []
     lhs = None
@@ -188,7 +194,7 @@ def check(tier, seed):
             stats["changed_by_optimizer"] += 1
         o = outs[k % nsh]
         o.write(json.dumps({"ev": "Init", "gid": gid}, separators=(",", ":")) + "\n" +
-                json.dumps({"ev": "Opt", "gid": gid, "pre": pre, "post": post}, separators=(",", ":")) + "\n")
+                json.dumps({"ev": "Opt", "gid": gid, "n": bound_for(pre), "pre": pre, "post": post}, separators=(",", ":")) + "\n")
         k += 1
     for o in outs:
         o.close()
